@@ -14,7 +14,8 @@ EXPLANATION = (
     "handler returns: C04); (K3) in the worker, every path on which the eventfd was consumed (gate true) reaches the "
     "backend's handle_event — no wake-up is consumed without being processed — and a false gate consumes nothing "
     "(C11/T4); (K4) the gate evaluation and the dispatch are covered by one critical section of a lock the control "
-    "path's state change also takes.")
+    "path's state change also takes."
+    " Also (K5-K9): the sequential half through C11/T1, T2, T4 and T3's who-may-register rule, and C17/E3 for the event id.")
 NOT_DECIDED = "The interleavings themselves; eventual delivery; epoll/eventfd kernel semantics."
 
 
